@@ -744,7 +744,7 @@ func init() {
 	core.Register(&core.Prop{
 		ID:    "C18",
 		Title: "Read-only operations are pure and safe for concurrent readers",
-		Cases: func(tier string) int { return tierN(tier, 2520, 50400) },
+		Cases: func(tier string) int { return tierN(tier, 2520, 100800) },
 		Run:   runC18,
 		Rule: "built with -race. Two of three cases are phase A: one of the 21 containers (all element types and configurations) in a state reached by a random history; the read-only catalogue (Get, GetKey, Contains, IndexOf, Peek, Size, Empty, Values, Keys, String, ToJSON, MarshalJSON, Floor, Ceiling, Min, Max, Left, Right, Height, " +
 			"LeftKey/RightKey/Value, GetNode, Node.Size, forward/backward/NextTo/PrevTo walks with fresh iterators, Each/Any/All/Find/Select/Map, set algebra with itself and a shared second set, GetSortedValues(Func)) is first answered sequentially, then run by 2..32 goroutines released by one barrier, " +
